@@ -13,6 +13,7 @@ import (
 	"net"
 	"os"
 	"path/filepath"
+	"runtime"
 	"sort"
 	"strings"
 	"sync"
@@ -193,12 +194,19 @@ func newSimNode(dir string, cid, nid uint64, opt Options) (*simNode, error) {
 		<-n.abortCh()
 		return nil, errSimAbort
 	}
-	// as stateLoop does
-	n.f = &follower{Raft: r}
-	n.c = &candidate{Raft: r}
-	n.l = &leader{Raft: r, repls: make(map[uint64]*replication),
-		transfer: transfer{timer: newSafeTimer(), newTermTimer: newSafeTimer()}}
-	r.ldr, r.cnd = n.l, n.c
+	// the role objects are built by the real stateLoop: it is started, hands them over at
+	// verifRoles and its goroutine ends there (before any defer is registered, before the loop)
+	simRolesMu.Lock()
+	got := make(chan struct{})
+	VerifRolesHook = func(f *follower, c *candidate, l *leader) {
+		n.f, n.c, n.l = f, c, l
+		close(got)
+		runtime.Goexit()
+	}
+	go r.stateLoop()
+	<-got
+	VerifRolesHook = nil
+	simRolesMu.Unlock()
 	go r.fsm.runLoop()
 	// as Serve does
 	if r.snaps.index > 0 {
@@ -214,6 +222,7 @@ func newSimNode(dir string, cid, nid uint64, opt Options) (*simNode, error) {
 }
 
 var simAbortMu sync.Mutex
+var simRolesMu sync.Mutex
 
 func (n *simNode) abortCh() chan struct{} {
 	simAbortMu.Lock()
